@@ -148,6 +148,9 @@ impl ValveProtocol {
             // the packet is split
             let first_packet = SplitPacket::new(engine, protocol, &mut buffer)?;
             let total = first_packet.total;
+            if total == 0 {
+                return Err(PacketBad.context("Split packet with a total of 0"));
+            }
             let mut packets = Vec::with_capacity(total as usize);
             packets.push(first_packet);
 
